@@ -286,6 +286,9 @@ func (db *DB) sessionID(ctx context.Context) ([]byte, bool) {
 	if err != nil {
 		return nil, false
 	}
+	if len(rawToken) < sessionIDSize {
+		return nil, false
+	}
 	id, mac1 := rawToken[:sessionIDSize], rawToken[sessionIDSize:]
 
 	// Check HMAC
